@@ -10,6 +10,7 @@ import (
 	"fmt"
 	"go/token"
 	"go/types"
+	"os"
 
 	"golang.org/x/tools/go/ssa"
 )
@@ -57,7 +58,7 @@ func ruleGsapRewind(c *Ctx) {
 		if g.scan.L.Blocks[b] {
 			continue
 		}
-		if _, isRet := b.Instrs[len(b.Instrs)-1].(*ssa.Return); !isRet {
+		if fi.loopOf(b) != nil {
 			continue
 		}
 		for _, in := range b.Instrs {
@@ -103,49 +104,13 @@ func ruleGsapRewind(c *Ctx) {
 			if g.scan.L.Blocks[L.Header] {
 				continue
 			}
-			// the loop lies on the way to the leaf: its header dominates the predecessor block of the leaf
-			if !(L.Header == from || L.Header.Dominates(from)) {
+			// the loop lies on the way to the leaf: its header dominates the predecessor block of the leaf, or the
+			// leaf is selected by a second evaluation of the very condition that guards the loop
+			if !(L.Header == from || L.Header.Dominates(from)) && !c.sameGuard(fi, g.scan.L, L, from) {
 				continue
 			}
-			var ph *ssa.Phi
-			for _, in := range L.Header.Instrs {
-				p, ok := in.(*ssa.Phi)
-				if !ok {
-					break
-				}
-				if !isIntType(p.Type()) {
-					continue
-				}
-				// starts at the new W, steps by one
-				okStart, okStep := false, true
-				for i, pr := range L.Header.Preds {
-					if L.Blocks[pr] {
-						if !fi.lin(p.Edges[i]).eq(linAtom(p.Name()).addc(1)) {
-							okStep = false
-						}
-					} else if fi.lin(p.Edges[i]).eq(l) {
-						okStart = true
-					}
-				}
-				if okStart && okStep {
-					ph = p
-				}
-			}
-			if ph == nil {
-				why = "the loop on this path does not start at the new W and step by one"
-				continue
-			}
-			// bound: continues while k < block end
-			iff, ok := L.Header.Instrs[len(L.Header.Instrs)-1].(*ssa.If)
-			if !ok {
-				continue
-			}
-			bo, ok := iff.Cond.(*ssa.BinOp)
-			if !ok || bo.Op != token.LSS || bo.X != ssa.Value(ph) || !fi.lin(bo.Y).eq(end) {
-				why = "the removal loop does not run up to the scanned block end " + end.String()
-				continue
-			}
-			// body: remover call on the set with isa[k], on every iteration
+			// the removal calls of the loop and the position whose rank each of them passes: isa[lo:…][x] is the
+			// rank of position lo + x (a range over a sub-slice and a counting loop over the array are the same walk)
 			for b := range L.Blocks {
 				for _, in := range b.Instrs {
 					call, ok := in.(*ssa.Call)
@@ -155,8 +120,47 @@ func ruleGsapRewind(c *Ctx) {
 					if fieldOfAddr(call.Call.Args[0]) != g.setF || !isRemover(call.Call.StaticCallee()) {
 						continue
 					}
-					if !c.callPassesRank(fi, call, g.isaF, linAtom(ph.Name())) {
+					f, at, okR := c.rankOperand(fi, call)
+					if !okR || f != g.isaF {
 						why = "the removal call does not pass the rank isa[k] of the loop position"
+						continue
+					}
+					// the counter: an integer φ of the header that steps by one and enters the position with factor 1
+					var ph *ssa.Phi
+					for _, hin := range L.Header.Instrs {
+						p, isPhi := hin.(*ssa.Phi)
+						if !isPhi {
+							break
+						}
+						if !isIntType(p.Type()) || at.t[p.Name()] != 1 {
+							continue
+						}
+						okStart, okStep := false, true
+						for i, pr := range L.Header.Preds {
+							if L.Blocks[pr] {
+								if !fi.lin(p.Edges[i]).eq(linAtom(p.Name()).addc(1)) {
+									okStep = false
+								}
+							} else if at.sub(linAtom(p.Name())).add(fi.lin(p.Edges[i])).eq(l) {
+								okStart = true
+							}
+						}
+						if okStart && okStep {
+							ph = p
+						}
+					}
+					if ph == nil {
+						why = "the loop on this path does not start at the new W and step by one"
+						continue
+					}
+					// bound: the loop goes on exactly while the position is below the block end
+					iff, ok := L.Header.Instrs[len(L.Header.Instrs)-1].(*ssa.If)
+					if !ok {
+						continue
+					}
+					bo, ok := iff.Cond.(*ssa.BinOp)
+					if !ok || bo.Op != token.LSS || !L.Blocks[L.Header.Succs[0]] || !fi.lin(bo.X).sub(fi.lin(bo.Y)).eq(at.sub(end)) {
+						why = "the removal loop does not run up to the scanned block end " + end.String()
 						continue
 					}
 					every := true
@@ -186,6 +190,200 @@ func ruleGsapRewind(c *Ctx) {
 }
 
 var _ = types.Typ
+
+// sameGuard: loop L (behind the scan loop) is entered exactly when a set S of branch conditions holds, and the
+// block `from` is reached only when conditions with the same meaning hold (the same operations on the same
+// parameters, constants and loads of the same access path in the same state): every execution that reaches
+// `from` has run L. This is the shape "if c { clean up }; …; if c { x = a } else { x = b }" that an extracted
+// epilogue helper produces when it evaluates the condition again.
+func (c *Ctx) sameGuard(fi *FuncInfo, scan, L *Loop, from *ssa.BasicBlock) bool {
+	var pre *ssa.BasicBlock
+	for _, p := range L.Header.Preds {
+		if !L.Blocks[p] {
+			if pre != nil {
+				return false
+			}
+			pre = p
+		}
+	}
+	if pre == nil {
+		return false
+	}
+	var exit *ssa.BasicBlock
+	for _, x := range scan.Header.Succs {
+		if !scan.Blocks[x] && (x == pre || x.Dominates(pre)) {
+			exit = x
+		}
+	}
+	if exit == nil {
+		return false
+	}
+	s1 := condsMinus(fi.condsAt(pre), fi.condsAt(exit))
+	if len(s1) == 0 {
+		return false
+	}
+	// S forces the way from the scan exit to the loop
+	cur := exit
+	for steps := 0; cur != pre; steps++ {
+		if steps > 32 {
+			return false
+		}
+		switch t := cur.Instrs[len(cur.Instrs)-1].(type) {
+		case *ssa.Jump:
+			cur = cur.Succs[0]
+		case *ssa.If:
+			next := (*ssa.BasicBlock)(nil)
+			for _, cd := range s1 {
+				if cd.V == t.Cond {
+					if cd.True {
+						next = cur.Succs[0]
+					} else {
+						next = cur.Succs[1]
+					}
+				}
+			}
+			if next == nil {
+				return false
+			}
+			cur = next
+		default:
+			return false
+		}
+	}
+	s2 := fi.condsAt(from)
+	fi.anchor = exit.Instrs[0]
+	defer func() { fi.anchor = nil }()
+	for _, c1 := range s1 {
+		u1 := unNot(c1)
+		found := false
+		for _, c2 := range s2 {
+			u2 := unNot(c2)
+			if u1.True == u2.True && fi.sameMeaning(u1.V, u2.V, 0) {
+				found = true
+			}
+		}
+		if !found {
+			if os.Getenv("LZDBG5") != "" {
+				fmt.Fprintf(os.Stderr, "DBG sameGuard: no partner for %v (%s) among %d conds at block %d\n", u1.V, u1.V.Name(), len(s2), from.Index)
+				for _, c2 := range s2 {
+					fmt.Fprintf(os.Stderr, "   cand %v %s true=%v\n", c2.V, c2.V.Name(), c2.True)
+				}
+			}
+			return false
+		}
+	}
+	return true
+}
+
+// sameMeaning: a and b compute the same value: the same operation applied to operands of the same meaning;
+// loads agree when they read the same access path in the same state (equal version).
+func (fi *FuncInfo) sameMeaning(a, b ssa.Value, depth int) bool {
+	if a == b {
+		return true
+	}
+	if depth > 8 {
+		return false
+	}
+	switch x := a.(type) {
+	case *ssa.Const:
+		y, ok := b.(*ssa.Const)
+		return ok && types.Identical(x.Type(), y.Type()) && x.Value != nil && y.Value != nil && x.Value.ExactString() == y.Value.ExactString()
+	case *ssa.BinOp:
+		y, ok := b.(*ssa.BinOp)
+		return ok && x.Op == y.Op && fi.sameMeaning(x.X, y.X, depth+1) && fi.sameMeaning(x.Y, y.Y, depth+1)
+	case *ssa.UnOp:
+		y, ok := b.(*ssa.UnOp)
+		if !ok || x.Op != y.Op {
+			return false
+		}
+		if x.Op == token.MUL {
+			r1, p1, ok1 := pathStr(x.X)
+			r2, p2, ok2 := pathStr(y.X)
+			if !ok1 || !ok2 || r1 != r2 || p1 != p2 || fieldOfAddr(x.X) == nil {
+				return false
+			}
+			if _, isParam := r1.(*ssa.Parameter); !isParam {
+				return false
+			}
+			if fi.version(x) == fi.version(y) {
+				return true
+			}
+			// … or nothing writes the field between the anchor (a point both loads lie behind) and either load
+			if fi.anchor != nil {
+				fi.computeWriters()
+				ws := fi.writers[fieldOfAddr(x.X)]
+				return fi.instrReaches(fi.anchor, x) && fi.instrReaches(fi.anchor, y) && !fi.writerBetween(fi.anchor, x, ws) && !fi.writerBetween(fi.anchor, y, ws)
+			}
+			return false
+		}
+		return fi.sameMeaning(x.X, y.X, depth+1)
+	case *ssa.Convert:
+		y, ok := b.(*ssa.Convert)
+		return ok && types.Identical(x.Type(), y.Type()) && fi.sameMeaning(x.X, y.X, depth+1)
+	case *ssa.Call:
+		y, ok := b.(*ssa.Call)
+		if !ok {
+			return false
+		}
+		bx, ok1 := x.Call.Value.(*ssa.Builtin)
+		by, ok2 := y.Call.Value.(*ssa.Builtin)
+		if !ok1 || !ok2 || bx.Name() != by.Name() || (bx.Name() != "len" && bx.Name() != "cap") {
+			return false
+		}
+		return fi.sameMeaning(x.Call.Args[0], y.Call.Args[0], depth+1)
+	}
+	return false
+}
+
+// rankOperand: the call passes int(F[lo:…][x]) for an []int32 field F (directly or as the only element of a variadic
+// argument); returns F and the position lo + x.
+func (c *Ctx) rankOperand(fi *FuncInfo, call *ssa.Call) (*types.Var, Lin, bool) {
+	check := func(v ssa.Value) (*types.Var, Lin, bool) {
+		ld, ok := stripConv(v).(*ssa.UnOp)
+		if !ok || ld.Op != token.MUL {
+			return nil, Lin{}, false
+		}
+		ia, ok := ld.X.(*ssa.IndexAddr)
+		if !ok {
+			return nil, Lin{}, false
+		}
+		at := fi.lin(ia.Index)
+		base := ia.X
+		for {
+			sl, isSl := base.(*ssa.Slice)
+			if !isSl {
+				break
+			}
+			if sl.Low != nil {
+				at = at.add(fi.lin(sl.Low))
+			}
+			base = sl.X
+		}
+		f := loadedField(base)
+		return f, at, f != nil
+	}
+	for _, a := range call.Call.Args[1:] {
+		if f, at, ok := check(a); ok {
+			return f, at, true
+		}
+		if sl, ok := a.(*ssa.Slice); ok {
+			if arr, ok := sl.X.(*ssa.Alloc); ok {
+				for _, ref := range *arr.Referrers() {
+					if ia, isIA := ref.(*ssa.IndexAddr); isIA {
+						for _, u := range *ia.Referrers() {
+							if st, isSt := u.(*ssa.Store); isSt && st.Addr == ssa.Value(ia) {
+								if f, at, ok := check(st.Val); ok {
+									return f, at, true
+								}
+							}
+						}
+					}
+				}
+			}
+		}
+	}
+	return nil, Lin{}, false
+}
 
 // ---------------------------------------------------------------- R-GSAP-WINFALLBACK
 
